@@ -1,5 +1,6 @@
 """C11: fragments reassemble to the original payload in any arrival order."""
 import itertools
+import re
 from vlib import hx
 
 ID = "C11"
@@ -8,6 +9,7 @@ MLMOD = "m_c11"
 RUNNER = "run_c11"
 HARNESS_BIN = "c11"
 RELEASE_ALWAYS = True      # set_len on spare capacity: look at debug and release
+HOOKS = True               # harness built with --cfg etherparse_verif: IpDefragPool::verif_stats (add-only hook, /repo 40f4741)
 F8 = "F8_stored_fragment_beyond_late_end"
 RULE = ("one case = one delivery history. buf: IpDefragBuf::new(+stale vectors) then add(); after every add the return value, "
         "is_complete, end, data length, sections (in Vec order) and data (bytes outside every section masked) are compared with the model, "
@@ -16,12 +18,19 @@ RULE = ("one case = one delivery history. buf: IpDefragBuf::new(+stale vectors) 
         "(quick 4, thorough 6) x duplicate deliveries (all single duplicates for k<=4, all double for k<=3, sampled beyond), random fragment soups "
         "(overlaps with different bytes, conflicting ends, unaligned, beyond 65535, empty payloads), 65535-byte datagrams, up to 4 interleaved streams "
         "whose ids differ in exactly one component, id reuse after completion, buffer return/reuse, eviction. "
+        "After EVERY pool operation verif_stats() = (active streams, pooled data vectors, pooled section vectors) is compared with the model's "
+        "(|active|, |free data|, |free sections|) and, independently, with the bookkeeping the property prescribes (oracle: completion (a-1,d,s+1); "
+        "first fragment (a+1,d-1,s-1) floored at 0; failing first fragment (a,max(1,d),max(1,s)); return (a,d+1,s); retain evicting n (a-n,d+n,s+n); "
+        "everything else unchanged; a = number of streams with an entry). Book-keeping histories: retain with predicates on the timestamp "
+        "(>=, <, !=, ==, parity, all, none), returns of handed-out and of foreign vectors, failing first fragments, evictions followed by the late fragments "
+        "and by a full re-delivery; every interleaving of two 2-fragment datagrams x one retain/return at every position. "
         "non-trivial = distinct history with >= 3 deliveries that reaches a completion or an error")
 ASSUMPTIONS = ["allocation never fails (AllocationFailure is not modelled)",
                "IpFragOffset <= 8191 (type invariant of the crate's IpFragOffset, enforced by try_new)",
                "the pool model starts after the slice has been inspected: the packet -> (stream id, offset, more-fragments, payload) step is exercised "
                "by the correspondence run (packets built and sliced by the crate), not modelled"]
-PROJECTION = "per delivery: verdict with all error fields, is_complete, end, data length, sections, masked data / returned payload, ip number, length source"
+PROJECTION = ("per delivery: verdict with all error fields, is_complete, end, data length, sections, masked data / returned payload, ip number, length source; "
+              "per pool operation: verif_stats()")
 
 
 def corpus():
@@ -45,6 +54,10 @@ def corpus():
         # pool: unfragmented packets pass through, v6, vlan, eviction
         "pool 2 6/5.6/20010db8000000000000000000000001/20010db8000000000000000000000002/99/6/3 4/5/0a000001/0a000002/99/6/3 "
         "p:0:0:0:1:00112233 p:1:0:0:1:00112233 p:0:0:1:2:0001020304050607 p:1:0:1:3:1011121314151617 t:3 p:0:1:0:4:08 p:1:1:0:4:18",
+        # pool: failing first fragment (both vectors go to the free lists), foreign return, eviction by several predicates, late fragment
+        "pool 3 4/-/0a000001/0a000002/7/17/0 4/-/0a000001/0a000002/8/17/0 4/-/0a000001/0a000002/9/17/0 "
+        "p:0:0:1:1:0102030405060708 p:1:0:1:2:0102030405060708 p:1:1:0:3:09 p:2:0:1:4:010203 r rf:eeeeee t:ge:2 "
+        "p:0:1:0:5:09 p:0:0:1:6:0102030405060708 t:lt:6 t:mod:1 t:ne:6 t:eq:6 t:none:0 t:all:0 p:2:8191:0:7:00000000000000000000000000000000",
         # pool: F8 through the pool
         "pool 1 4/-/0a000001/0a000002/7/17/0 p:0:0:1:1:000102030405060708090a0b0c0d0e0f p:0:1:0:1:aabbccdd",
     ]
@@ -330,6 +343,106 @@ def _pool_big(rng):
         cases.append("pool 1 %s %s" % (_sdef(s), " ".join(ops)))
     return cases
 
+_PREDS = ["ge", "lt", "ne", "eq", "mod", "all", "none"]
+
+
+def _pred_op(rng, ts):
+    k = rng.choice(_PREDS)
+    return "t:%s:%d" % (k, max(0, ts + rng.below(4) - 2))
+
+
+def _bad_first(rng):
+    """a fragment that every buffer rejects: unaligned non-final, or beyond 65535"""
+    if rng.chance(1, 2):
+        return (rng.below(4), True, rng.bytes(rng.choice([1, 3, 7, 9, 15])))
+    return (8191, rng.chance(1, 2), rng.bytes(rng.choice([8, 9, 16])))
+
+
+def _pool_book_cases(rng, n, maxstreams):
+    """histories aimed at the bookkeeping: frequent returns (own and foreign vectors), retain with every predicate,
+    failing first fragments, evictions followed by late fragments and by a complete re-delivery"""
+    cases = []
+    for _ in range(n):
+        streams = _streams(rng, rng.range(1, maxstreams))
+        ns = len(streams)
+        queues = []
+        for s in range(ns):
+            q = []
+            for _d in range(rng.range(1, 3)):
+                k = rng.range(2, 4)
+                sizes = [rng.range(1, 2) for _ in range(k - 1)]
+                P = rng.bytes(8 * sum(sizes) + rng.range(1, 9))
+                fr = _cut(P, sizes)
+                order = list(range(len(fr)))
+                for i in range(len(order) - 1, 0, -1):
+                    j = rng.below(i + 1)
+                    order[i], order[j] = order[j], order[i]
+                dg = [fr[i] for i in order]
+                if rng.chance(1, 3):
+                    dg = dg + dg          # the whole datagram again (after an eviction the second copy completes)
+                q.extend(dg)
+            queues.append(q)
+        ops = []
+        ts = 1
+        pos = [0] * ns
+        while any(pos[s] < len(queues[s]) for s in range(ns)):
+            r = rng.below(16)
+            if r < 9:
+                s = rng.choice([x for x in range(ns) if pos[x] < len(queues[x])])
+                fo, mf, data = queues[s][pos[s]]
+                pos[s] += 1
+                ts += rng.below(3)
+                ops.append("p:%d:%d:%d:%d:%s" % (s, fo, 1 if mf else 0, ts, hx(data)))
+            elif r < 11:
+                fo, mf, data = _bad_first(rng)
+                ts += rng.below(2)
+                ops.append("p:%d:%d:%d:%d:%s" % (rng.below(ns), fo, 1 if mf else 0, ts, hx(data)))
+            elif r < 13:
+                ops.append("r")
+            elif r < 14:
+                ops.append("rf:%s" % hx(rng.bytes(rng.range(0, 20))))
+            else:
+                ops.append(_pred_op(rng, ts))
+        ops += ["r"] * rng.below(3)
+        if rng.chance(1, 2):
+            ops.append(_pred_op(rng, ts))
+        cases.append("pool %d %s %s" % (ns, " ".join(_sdef(s) for s in streams), " ".join(ops)))
+    return cases
+
+
+def _pool_book_enum(rng, big):
+    """two streams, one 2-fragment datagram each: every interleaving of the four deliveries (timestamps 1..4)
+    x one extra operation (every retain predicate/cutoff, return, foreign return, failing first fragment of a
+    third stream) at every position; then the evicted datagrams are delivered again completely"""
+    cases = []
+    streams = _streams(rng, 3)
+    while len(streams) < 3:
+        streams = _streams(rng, 3)
+    sd = " ".join(_sdef(s) for s in streams)
+    PA = rng.bytes(8 + rng.range(1, 8))
+    PB = rng.bytes(8 + rng.range(1, 8))
+    fa = _cut(PA, [1])
+    fb = _cut(PB, [1])
+    items = [(0, fa[0]), (0, fa[1]), (1, fb[0]), (1, fb[1])]
+    extras = ["r", "rf:ee", "t:none:0", "t:all:0", "t:mod:0", "t:mod:1", "p:2:0:1:9:010203", "p:2:8191:0:9:" + "00" * 16]
+    extras += ["t:ge:%d" % c for c in range(1, 6)] + ["t:lt:%d" % c for c in range(1, 6)]
+    extras += ["t:ne:%d" % c for c in range(1, 5)] + ["t:eq:%d" % c for c in range(1, 5)]
+    tail = ["p:0:%d:%d:7:%s" % (f[0], 1 if f[1] else 0, hx(f[2])) for f in fa] + ["r"] + \
+           ["p:1:%d:%d:8:%s" % (f[0], 1 if f[1] else 0, hx(f[2])) for f in reversed(fb)] + ["r", "r"]
+    perms = list(itertools.permutations(range(4)))
+    for perm in perms:
+        base = []
+        for n, i in enumerate(perm):
+            sid, f = items[i]
+            base.append("p:%d:%d:%d:%d:%s" % (sid, f[0], 1 if f[1] else 0, n + 1, hx(f[2])))
+        for pos in range(5):
+            for e in extras:
+                if not big and rng.below(3):      # quick: a third of the grid (the grid is fully enumerated in thorough)
+                    continue
+                ops = base[:pos] + [e] + base[pos:] + tail
+                cases.append("pool 3 %s %s" % (sd, " ".join(ops)))
+    return cases
+
 
 def gen_cases(rng, tier):
     big = tier == "thorough"
@@ -340,10 +453,98 @@ def gen_cases(rng, tier):
     cases += _pool_perm_cases(rng, 5 if big else 4)
     cases += _pool_cases(rng, 200000 if big else 4000, 4)
     cases += _pool_big(rng)
+    cases += _pool_book_enum(rng, big)
+    cases += _pool_book_cases(rng, 100000 if big else 3000, 4)
     return cases
 
 
 # ---------------------------------------------------------------------------
+_STATS_RE = re.compile(r" stats=(\S+)")
+
+
+def _split_stats(step):
+    """'none stats=1,0,0' -> ('none', (1, 0, 0)); no hook build ('stats=-') or no stats -> (answer, None)"""
+    m = _STATS_RE.search(step)
+    if not m:
+        return step, None
+    ans = step[:m.start()] + step[m.end():]
+    if m.group(1) == "-":
+        return ans, None
+    return ans, tuple(int(x) for x in m.group(1).split(","))
+
+
+def _pred(kind, arg):
+    return {"ge": lambda t: arg <= t, "lt": lambda t: t < arg, "ne": lambda t: t != arg, "eq": lambda t: t == arg,
+            "mod": lambda t: t % 2 == (arg & 1), "all": lambda t: True, "none": lambda t: False}[kind]
+
+
+def _book_oracle(case, ist, hist):
+    """the bookkeeping the property prescribes, recomputed from the implementation's own answers:
+    returns (step, message) of the first operation whose verif_stats() differs, or None"""
+    toks = case.split()
+    ns = int(toks[1])
+    sdefs = toks[2:2 + ns]
+    ops = toks[2 + ns:]
+    if len(ops) != len(ist):
+        return None
+    act = {}          # stream definition -> timestamp of the last accepted fragment
+    a = d = s = 0
+    evicted_keys = set()
+    for j, (op, step) in enumerate(zip(ops, ist)):
+        ans, st = _split_stats(step)
+        if st is None:
+            return None
+        parts = op.split(":")
+        if parts[0] in ("p", "q"):
+            key = sdefs[int(parts[1])]
+            fo, mf, ts = int(parts[2]), parts[3] == "1", int(parts[4])
+            frag = mf or fo != 0
+            if ans == "none":
+                if not frag:
+                    pass
+                elif key in act:
+                    act[key] = ts
+                else:
+                    act[key] = ts
+                    a, d, s = a + 1, max(d - 1, 0), max(s - 1, 0)
+                    if key in evicted_keys:
+                        evicted_keys.discard(key)
+                        hist["late_fragment_after_eviction"] += 1
+            elif ans.startswith("done"):
+                if key not in act:
+                    return j, "a payload is returned for a stream that has no entry"
+                del act[key]
+                a, s = a - 1, s + 1
+            elif ans.startswith("err"):
+                if not frag:
+                    return j, "an unfragmented packet is answered with an error"
+                if key not in act:
+                    d, s = max(1, d), max(1, s)
+                    hist["failing_first_fragment"] += 1
+            else:
+                return None
+        elif parts[0] == "r":
+            if ans == "ret1":
+                d += 1
+        elif parts[0] == "rf":
+            d += 1
+            hist["foreign_return"] += 1
+        elif parts[0] == "t":
+            f = _pred("ge", int(parts[1])) if len(parts) == 2 else _pred(parts[1], int(parts[2]))
+            gone = [k for k, t in act.items() if not f(t)]
+            for k in gone:
+                del act[k]
+                evicted_keys.add(k)
+            n = len(gone)
+            hist["retain_evictions"] += n
+            a, d, s = a - n, d + n, s + n
+        hist["stats_checked"] += 1
+        if st != (a, d, s) or a != len(act):
+            return j, "after '%s' (answer '%s') verif_stats() = %s, the bookkeeping of the property gives %s" % (
+                op[:60], ans[:40], st, (a, d, s))
+    return None
+
+
 def _steps(line):
     return [s.strip() for s in line.split(" ; ")] if line else []
 
@@ -358,7 +559,8 @@ def compare(ctx, cases, impl, model_lines):
     corr, orc = [], []
     hist = {"buf": 0, "pool": 0, "steps<=4": 0, "steps<=8": 0, "steps>8": 0, "completions": 0, "err:toobig": 0,
             "err:unaligned": 0, "err:conflict": 0, "known_F8_histories": 0, "spec_evaluated": 0, "ret1": 0, "retain": 0,
-            "max_data_len": 0}
+            "max_data_len": 0, "stats_checked": 0, "retain_evictions": 0, "failing_first_fragment": 0, "foreign_return": 0,
+            "late_fragment_after_eviction": 0, "stats_unobserved_lines": 0}
     seen = set()
     nontriv = 0
     for i, c in enumerate(cases):
@@ -374,9 +576,15 @@ def compare(ctx, cases, impl, model_lines):
         first = True
         for prof, lines in impl.items():
             il = lines[i]
-            if m is not None and il != m:
+            mm = m
+            if "stats=-" in il:
+                # harness built without --cfg etherparse_verif: the three numbers are not observable
+                il = _STATS_RE.sub("", il)
+                mm = _STATS_RE.sub("", m) if m is not None else None
+                hist["stats_unobserved_lines"] += 1
+            if mm is not None and il != mm:
                 # locate the first differing step for the report
-                a, b = _steps(il), _steps(m)
+                a, b = _steps(il), _steps(mm)
                 k = next((j for j in range(min(len(a), len(b))) if a[j] != b[j]), min(len(a), len(b)))
                 corr.append((i, "%s: step %d impl '%s' model '%s'" % (
                     prof, k, a[k] if k < len(a) else "<none>", b[k] if k < len(b) else "<none>")))
@@ -384,13 +592,19 @@ def compare(ctx, cases, impl, model_lines):
             if il.startswith("PANIC") or il.startswith("CRASH") or il == "NOT-RUN":
                 orc.append((i, "%s: %s" % (prof, il[:200]), None))
                 continue
+            if kind == "pool":
+                # the property's own bookkeeping against the numbers of the hook (every profile)
+                bad = _book_oracle(c, ist, hist if first else dict.fromkeys(hist, 0))
+                if bad is not None:
+                    orc.append((i, "%s: operation %d: %s" % (prof, bad[0], bad[1]), None))
             if first:
                 first = False
                 n = len(ist)
+                ians = [_split_stats(x)[0] for x in ist]
                 hist["steps<=4" if n <= 4 else ("steps<=8" if n <= 8 else "steps>8")] += 1
-                done = sum(1 for x in ist if x.startswith("done") or " c=1 " in x)
+                done = sum(1 for x in ians if x.startswith("done") or " c=1 " in x)
                 errs = 0
-                for x in ist:
+                for x in ians:
                     for e in ("toobig", "unaligned", "conflict"):
                         if x.startswith(e) or x.startswith("err:" + e):
                             hist["err:" + e] += 1
@@ -424,8 +638,11 @@ def compare(ctx, cases, impl, model_lines):
                     late = bv.startswith("late")
                     ok = (av == bv and af.get("c") == bf.get("c") and (bf.get("c") != "1" or af.get("d") == bf.get("p")))
                 else:
+                    ia, istat = _split_stats(a)
+                    b, _, bact = b.partition(" act=")
+                    a = ia
                     late = b.startswith("err:late")
-                    ok = (a == b) or b == "-"
+                    ok = ((a == b) or b == "-") and (istat is None or not bact or istat[0] == int(bact))
                 if late:
                     if not ok:
                         orc.append((i, "%s: delivery %d: a final fragment ends below data accepted earlier (%s); "
